@@ -19,7 +19,8 @@ EXPLANATION = ("D1 per-hour weight (f dir + dif)/(dir + dif), factor = round2(su
                "azimuth, the row's date/hour/irradiances and the zone's latitude")
 DECIDED = ["D1 weight formula and mean", "D2 early exits of sunlit_fraction", "D3 occluder predicates", "D4 argument provenance",
            "D5 a window without position or wall yields no sample points; reveal rectangles exact for every tilt; no candidate obstacle is dropped while the node list is generated",
-           "D6 the side of a polygon (its normal) is decided from all its vertices"]
+           "D6 the side of a polygon (its normal) is decided from all its vertices; area, perimeter and normal close the outline (wrap-around)",
+           "D7 every July row is recorded (must-pass-through over the hour loop); a triangle is a polygon in every vertex-count test"]
 UNDECIDED = ["bounds [0,1]", ">= 0.97 when unobstructed", "diffuse share only when hidden", "monotonicity under added obstacles",
              "whether the acceleration structure reports the hits at all (ray casting answers)"]
 ASSUMPTIONS = ["C13/C14 cover totality of the ray casting; C20 covers the tables"]
